@@ -342,6 +342,61 @@ def r02_3(ctx):
     ctx.floor("R02.3", 7)
 
 
+# ------------------------------------------------------------------------------------------------ R02.5
+def _second_order_weight(y1, second_arg_pred, direction):
+    """sum over atoms prod(G[t_i, Y_i], V) (V accepted by the predicate) of coef_i * (d Y_i / d direction)^2: the weight
+    with which the *second* derivative of the diffusion enters a difference quotient."""
+    y1 = nf.reduce_sqrt(Rat.lift(y1))
+    total = Rat.const(0)
+    for m, c in y1.num.terms.items():
+        bils = [(a, e) for a, e in m if a[0] == "bil" and a[1] == "prod"]
+        if len(bils) != 1 or bils[0][1] != 1:
+            continue
+        a = bils[0][0]
+        gk, vk = nf.key_to_rat(a[2]), nf.key_to_rat(a[3])
+        g_atoms = [x for x in gk.atoms()]
+        if len(g_atoms) != 1 or g_atoms[0][0] != "fn" or g_atoms[0][1] != "G" or not second_arg_pred(vk):
+            continue
+        coef = Rat(nf.Poly({tuple((x, e) for x, e in m if x != a): c}))
+        d = nf.coefficient_of(steps.collapse(nf.key_to_rat(g_atoms[0][3])), direction)
+        total = total + coef * d * d
+    return total
+
+
+def r02_5(ctx):
+    """Derivative-free Milstein replaces g'g v / 2 by a difference quotient (g(y + delta) - g(y ...)) v / (2 |delta|/g)
+    with delta = g sqrt(h).  Its Taylor expansion also contains g'' g^2 B v / 2, B = sum_i c_i a_i^2 over the
+    evaluation points y + a_i g.  For a one-sided difference B = sqrt(h)/2, so the step carries the extra term
+    g'' g^2 sqrt(h) v / 4: harmless when E v = 0 (Ito: v = dW^2 - h), but a bias of order h^1.5 per step when E v = h
+    (Stratonovich: v = dW^2) -- the expectation then agrees only to O(h^1.5), not O(h^(p+1)) with the advertised p = 1,
+    and the global strong order is 1/2.  A symmetric difference has B = 0."""
+    rep = ctx.rep
+    rep.rule("R02.5", "derivative-free Milstein: the second-order weight B of the difference quotient times E[v] vanishes "
+                      "(B = 0 for a symmetric difference; E v = 0 for the Ito variant): no O(h^1.5) bias per step")
+    G0 = ("t", "G0")
+    n = 0
+    for sc in _scen(ctx):
+        if not ("Milstein" in sc.cls.name and any(sc.options.values())):
+            continue
+        y1, _, _, (t0, h, t1, y0) = _eval(ctx, sc)
+        W = _W(t0, t1)
+        rep.analysed(sc.step_fi)
+        b_w2 = _second_order_weight(y1, lambda v: nf.equal(v, W * W), G0)
+        b_1 = _second_order_weight(y1, lambda v: nf.equal(v, Rat.const(1)), G0)
+        bias = nf.reduce_sqrt(b_w2 * h + b_1)             # E[dW^2] = h, E[1] = 1
+        n += 1
+        rep.check(bias.is_zero(), "R02.5", astq.loc(sc.step_fi), f"{sc.step_fi.key}::R02.5::{sc.cls.name}::{sc.noise_type}",
+                  f"derivative-free {sc.cls.name} ({sc.noise_type} noise): the difference quotient is one-sided (second-order "
+                  f"weight {nf.reduce_sqrt(b_w2)} on dW^2, {nf.reduce_sqrt(b_1)} on the constant part) and its multiplier does not have "
+                  f"zero mean: every step carries the bias g'' g^2 * ({bias}) / 2 of order h^1.5, so the expectation agrees with "
+                  f"the Taylor expansion only to O(h^1.5) and the scheme converges with strong order 1/2, not the advertised 1",
+                  "no h^1.5 bias")
+    if n < 2:
+        raise AnalysisError(f"R02.5 found {n} derivative-free Milstein scenario(s); expected at least 2")
+    ctx.floor("R02.5", 2)
+
+
+
 # ------------------------------------------------------------------------------------------------ R02.4
 TABLEAU_FIELDS_SRI = ("A0", "A1", "B0", "B1", "C0", "C1", "alpha", "beta1", "beta2", "beta3", "beta4")
 TABLEAU_FIELDS_SRA = ("A0", "B0", "C0", "C1", "alpha", "beta1", "beta2")
@@ -584,4 +639,5 @@ def run(ctx):
     ctx.guard(r02_1)
     ctx.guard(r02_2)
     ctx.guard(r02_3)
+    ctx.guard(r02_5)
     ctx.guard(r02_4)
